@@ -144,6 +144,7 @@ class Interp(Engine):
         return acc
 
     want_truth = False
+    merge_ifs = True
     no_let = bool(__import__("os").environ.get("PYVC_NO_LET"))
 
     def ev_UnaryOp(self, n):
@@ -295,12 +296,63 @@ class Interp(Engine):
     def st_Return(self, s):
         raise ReturnSig(self.ev(s.value) if s.value is not None else NoneV())
 
+    def mergeable(self, stmts):
+        """branch consisting only of assignments to local names (state can be merged with ite instead of forking)"""
+        for st in stmts:
+            if isinstance(st, ast.Assign):
+                if not all(isinstance(t, ast.Name) for t in st.targets):
+                    return False
+                val = st.value
+            elif isinstance(st, ast.AugAssign):
+                if not isinstance(st.target, ast.Name):
+                    return False
+                val = st.value
+            elif isinstance(st, ast.Pass):
+                continue
+            else:
+                return False
+            for n in ast.walk(val):
+                if isinstance(n, ast.Call):
+                    f = n.func
+                    ok = (isinstance(f, ast.Name) and f.id in ("len", "int", "str", "ord", "chr")) or \
+                         (isinstance(f, ast.Attribute) and f.attr in ("startswith", "endswith", "lower", "upper"))
+                    if not ok:
+                        return False
+                if isinstance(n, (ast.Lambda, ast.ListComp, ast.GeneratorExp, ast.Yield)):
+                    return False
+        return True
+
     def st_If(self, s):
         self.want_truth = True
         try:
             c = self.truth(self.ev(s.test))
         finally:
             self.want_truth = False
+        cs = z3.simplify(c)
+        if not z3.is_true(cs) and not z3.is_false(cs) and not self.spec_mode and self.merge_ifs \
+                and self.mergeable(s.body) and self.mergeable(s.orelse):
+            # state merging: run both branches on copies of the locals and join with ite
+            base = dict(self.st.vars)
+            out = []
+            for guard, stmts in ((c, s.body), (z3.Not(c), s.orelse)):
+                self.st.vars = dict(base)
+                self.guards.append(guard)
+                try:
+                    self.exec_block(stmts)
+                finally:
+                    self.guards.pop()
+                out.append(self.st.vars)
+            merged = dict(base)
+            try:
+                for k in set(out[0]) | set(out[1]):
+                    a, b = out[0].get(k), out[1].get(k)
+                    if a is None or b is None:
+                        raise Unsupported("variable %s defined in one branch only" % k)
+                    merged[k] = a if a is b else self.ite(c, a, b)
+                self.st.vars = merged
+                return
+            except Unsupported:
+                self.st.vars = base      # fall back to forking
         if self.decide(c):
             self.exec_block(s.body)
         else:
